@@ -326,63 +326,113 @@ def _variant_optimize(variant, real):
             "loops": per_section(loops), "licm": per_section(licm)}[variant]
 
 
-def capture(objs, options: dict, variants=("full",), record_calls=False) -> list[Captured]:
-    """Run analysis + IR once, then the real generators once per optimiser variant; return every kernel."""
+def capture(objs, options: dict, variants=("full",), record_calls=False, jit: dict | None = None):
+    """Run the real pipeline once with recording wrappers around the generators and the optimiser, then
+    re-run the real generators once per additional optimiser variant on the recorded IR.
+
+    jit = None: ffcx.compiler.compile_ufl_objects (no C compiler).
+    jit = {"cache_dir": path, "cflags": [...]}: ffcx.codegeneration.jit.compile_forms / compile_expressions, so
+          that the recorded ASTs are exactly those of the compiled module.
+    -> (list[Captured], jitinfo | None)      jitinfo = {"compiled", "module", "so", "code", "kind"}
+    """
+    import ffcx.codegeneration.expression_generator as EG  # noqa: PLC0415
     import ffcx.codegeneration.integral_generator as IG  # noqa: PLC0415
     import ffcx.codegeneration.optimizer as O  # noqa: PLC0415
+    import ffcx.compiler as FC  # noqa: PLC0415
     import ffcx.options  # noqa: PLC0415
-    from ffcx.analysis import analyze_ufl_objects  # noqa: PLC0415
     from ffcx.codegeneration.backend import FFCXBackend  # noqa: PLC0415
-    from ffcx.codegeneration.expression_generator import ExpressionGenerator  # noqa: PLC0415
-    from ffcx.ir.representation import compute_ir  # noqa: PLC0415
 
     opts = ffcx.options.get_options(dict(options))
     st = np.dtype(opts["scalar_type"]).name
-    analysis = analyze_ufl_objects(list(objs), opts["scalar_type"])
-    ir = compute_ir(analysis, {}, "s4", opts, False)
-    # which compiled object an integral IR belongs to: by name through the form IRs
+    real_optimize = O.optimize
+    if IG.optimize is not real_optimize:
+        raise MachineryError("integral_generator.optimize is not optimizer.optimize - S4 wrapper out of date")
+    real_gen, real_egen, real_cir = IG.IntegralGenerator.generate, EG.ExpressionGenerator.generate, FC.compute_ir
+    caps: list[Captured] = []
+    recorded: list = []          # (Captured, ir, domain)
+    irs: list = []
+    calls_now: list | None = None
+
+    def rec_optimize(code, rule):
+        before = [astexport.export_stmt(s) for s in code] if calls_now is not None else None   # licm mutates in place
+        out = real_optimize(code, rule)
+        if calls_now is not None:
+            calls_now.append({"in": before, "out": [astexport.export_stmt(s) for s in out]})
+        return out
+
+    def rec_gen(self, domain):
+        nonlocal calls_now
+        iir = self.ir
+        cap = Captured("integral", f"{iir.expression.name}_{domain.name}", iir.expression.integral_type,
+                       iir.expression.entity_type, domain.name, -1,
+                       ir_enabled=[bool(b) for b in iir.enabled_coefficients], part=iir.part.name, scalar_type=st)
+        calls_now = cap.opt_calls if record_calls else None
+        try:
+            ast = real_gen(self, domain)
+        finally:
+            calls_now = None
+        cap.asts["full"] = ast
+        caps.append(cap)
+        recorded.append((cap, iir, domain))
+        return ast
+
+    def rec_egen(self):
+        eir = self.ir
+        (_, rule), = list(eir.expression.integrand.keys())
+        cap = Captured("expression", eir.expression.name, "expression", eir.expression.entity_type, "", -1,
+                       npoints=int(rule.points.shape[0]), scalar_type=st)
+        ast = real_egen(self)
+        cap.asts["full"] = ast
+        caps.append(cap)
+        recorded.append((cap, eir, None))
+        return ast
+
+    def rec_cir(*a, **kw):
+        ir = real_cir(*a, **kw)
+        irs.append(ir)
+        return ir
+
+    jitinfo = None
+    IG.optimize, IG.IntegralGenerator.generate, EG.ExpressionGenerator.generate, FC.compute_ir = (
+        rec_optimize, rec_gen, rec_egen, rec_cir)
+    try:
+        if jit is None:
+            FC.compile_ufl_objects(list(objs), options=opts, namespace="s4")
+        else:
+            import ffcx.codegeneration.jit as J  # noqa: PLC0415
+
+            is_expr = bool(objs) and isinstance(objs[0], tuple)
+            fn = J.compile_expressions if is_expr else J.compile_forms
+            compiled, module, code = fn(list(objs), options=dict(options), cache_dir=jit["cache_dir"],
+                                        cffi_extra_compile_args=list(jit.get("cflags", ["-O0"])))
+            jitinfo = {"compiled": compiled, "module": module, "so": module.__file__, "code": code,
+                       "kind": "expr" if is_expr else "form"}
+    finally:
+        IG.optimize, IG.IntegralGenerator.generate, EG.ExpressionGenerator.generate, FC.compute_ir = (
+            real_optimize, real_gen, real_egen, real_cir)
+    if len(irs) != 1:
+        raise MachineryError(f"compute_ir was called {len(irs)} times during one compilation")
     owner = {}
-    for fi, f in enumerate(ir.forms):
+    for fi, f in enumerate(irs[0].forms):
         for names in f.integral_names.values():
             for n in names:
                 owner[n] = fi
-    caps: list[Captured] = []
-    real_optimize = O.optimize
-    if IG.optimize is not real_optimize and getattr(IG.optimize, "__wrapped_s4__", None) is None:
-        raise MachineryError("integral_generator.optimize is not optimizer.optimize any more - S4 wrapper out of date")
+    enames = [e.expression.name for e in irs[0].expressions]
+    for cap, xir, dom in recorded:
+        cap.obj_index = owner.get(xir.expression.name, 0) if cap.kind == "integral" else enames.index(xir.expression.name)
+    # the other optimiser variants, generated by the real generators from the same IR
     try:
-        for iir in ir.integrals:
-            domains = sorted({k[0] for k in iir.expression.integrand.keys()}, key=lambda d: d.name)
-            for dom in domains:
-                cap = Captured("integral", f"{iir.expression.name}_{dom.name}", iir.expression.integral_type,
-                               iir.expression.entity_type, dom.name, owner.get(iir.expression.name, 0),
-                               ir_enabled=[bool(b) for b in iir.enabled_coefficients], part=iir.part.name,
-                               scalar_type=st)
-                for var in variants:
-                    fn = _variant_optimize(var, real_optimize)
-                    calls = cap.opt_calls if (var == "full" and record_calls) else None
-
-                    def wrapped(code, rule, fn=fn, calls=calls):
-                        if calls is not None:
-                            before = [astexport.export_stmt(s) for s in code]       # BEFORE: licm mutates in place
-                        out = fn(code, rule)
-                        if calls is not None:
-                            calls.append({"in": before, "out": [astexport.export_stmt(s) for s in out]})
-                        return out
-                    wrapped.__wrapped_s4__ = True
-                    IG.optimize = wrapped
-                    gen = IG.IntegralGenerator(iir, FFCXBackend(iir, opts))
-                    cap.asts[var] = gen.generate(dom)
-                caps.append(cap)
-        for ei, eir in enumerate(ir.expressions):
-            (_, rule), = list(eir.expression.integrand.keys())
-            cap = Captured("expression", eir.expression.name, "expression", eir.expression.entity_type, "", ei,
-                           npoints=int(rule.points.shape[0]), scalar_type=st)
-            cap.asts["full"] = ExpressionGenerator(eir, FFCXBackend(eir, opts)).generate()
-            caps.append(cap)
+        for cap, xir, dom in recorded:
+            if cap.kind != "integral":
+                continue
+            for var in variants:
+                if var == "full":
+                    continue
+                IG.optimize = _variant_optimize(var, real_optimize)
+                cap.asts[var] = IG.IntegralGenerator(xir, FFCXBackend(xir, opts)).generate(dom)
     finally:
         IG.optimize = real_optimize
-    return caps
+    return caps, jitinfo
 
 
 # ------------------------------------------------------------------------------------------ extents
@@ -406,12 +456,15 @@ def entity_contract(cellname: str, itype: str, entity: str):
         nent = len(top[tdim - 2])
     else:
         raise MachineryError(f"unknown entity type {entity}")
-    if itype == "interior_facet":
+    if itype == "interior_facet" or (itype == "expression" and entity == "facet"):
+        # ufcx.h: permutations are passed for interior facets (two entries).  FFCx documents in
+        # ir/elementtables.py that expressions tabulated at facet points are permuted as well (one entry).
         sizes = {len(f) for f in top[tdim - 1]}
         if len(sizes) != 1:
             raise MachineryError("interior facets of a cell with several facet types")
         nperm = {1: 1, 2: 2, 3: 6, 4: 8}[sizes.pop()]
-        return 2, 2, [list(range(nent))] * 2, [list(range(nperm))] * 2
+        n = 2 if itype == "interior_facet" else 1
+        return n, n, [list(range(nent))] * n, [list(range(nperm))] * n
     return 1, 0, [list(range(nent))], []
 
 
